@@ -1,7 +1,8 @@
 ------------------------------ MODULE Trace_C06 ------------------------------
 (* Impl -> spec: each event is one real run of the binary: (class, sha of every output byte).    *)
 (* A class is one fixed (source items, configuration, options): runs of a class differ only in    *)
-(* arrival order, thread count, process (hash seed) or how the same items are split over files.   *)
+(* arrival order, thread count, process (hash seed), how the same items are split over files, or    *)
+(* what the output location held before the run.                                                  *)
 (* Layer P: within a class every run yields the same bytes.                                        *)
 EXTENDS TLC, Json, IOUtils, Sequences, Naturals
 Rec == ndJsonDeserialize(IOEnv.TRACE)
